@@ -74,28 +74,36 @@ def snapshot(wd):
             except OSError: out[os.path.relpath(q, wd)] = None
     return out
 
+def cli_files():
+    """the files every command-layer scenario starts from (dotted names, a sub-directory, a hidden file, a file without final newline, an empty
+    one, unparsable and uncomputable ledgers, two statements holding an identical line, a broker export with its awards)"""
+    files = {"a.cgt": GOOD_A, "b.cgt": GOOD_B, "c.noeol": GOOD_NOEOL, "bad.cgt": BAD_PARSE, "calcbad.cgt": BAD_CALC,
+             "my.ledger.cgt": GOOD_A, "noext": GOOD_B, ".hidden": GOOD_B, "sub.d/x.cgt": GOOD_A, "sub.d/noext": GOOD_B, "empty.cgt": b"", "dots.": GOOD_B,
+             "dup1.cgt": b"2024-02-01 BUY D 5 @ 2 FEES 1\n", "dup2.cgt": b"2024-02-01 BUY D 5 @ 2 FEES 1\n2024-09-01 SELL D 7 @ 3\n"}
+    for nm, key in (("synthetic-transactions.json", "s.json"), ("synthetic-awards.json", "aw.json")):
+        q = os.path.join(build.REPO, "tests/schwab", nm)
+        files[key] = open(q, "rb").read() if os.path.exists(q) else b"{}"
+    files["junk.json"] = b"{not json"
+    return files
+
 def cli_layer(ctx, root):
     """Scenarios of files, command lines and faults: the effects Model/Cli.v predicts (standard output, files written, exit)
     from the outcomes of the computations (taken from the library through the harness) against what the built binary does."""
     rng = ctx.rng
-    files = {"a.cgt": GOOD_A, "b.cgt": GOOD_B, "c.noeol": GOOD_NOEOL, "bad.cgt": BAD_PARSE, "calcbad.cgt": BAD_CALC,
-             "my.ledger.cgt": GOOD_A, "noext": GOOD_B, ".hidden": GOOD_B, "sub.d/x.cgt": GOOD_A, "sub.d/noext": GOOD_B, "empty.cgt": b"", "dots.": GOOD_B}
-    schwab_tx = open(build.REPO + "/tests/schwab/synthetic-transactions.json", "rb").read() if os.path.exists(build.REPO + "/tests/schwab/synthetic-transactions.json") else b"{}"
-    schwab_aw = open(build.REPO + "/tests/schwab/synthetic-awards.json", "rb").read() if os.path.exists(build.REPO + "/tests/schwab/synthetic-awards.json") else b"{}"
-    files["s.json"] = schwab_tx; files["aw.json"] = schwab_aw; files["junk.json"] = b"{not json"
+    files = cli_files()
     scen = []
     for i in range(ctx.n(70, 1200)):
         kind = rng.choice(["report"] * 6 + ["parse"] * 2 + ["convert"])
         sc = {"id": "cl%d" % i, "kind": kind, "pre": [], "nowrite": []}
-        out_choices = [None, None, "out.txt", "old.txt", "nodir/out.txt", "sub.d/o.bin", "sub.d"]
+        out_choices = [None, None, None, "out.txt", "out.txt", "old.txt", "old.txt", "nodir/out.txt", "sub.d/o.bin", "sub.d"]
         if kind == "report":
             k = rng.choice([1, 1, 1, 2, 3])
-            pool = ["a.cgt", "b.cgt", "c.noeol", "my.ledger.cgt", "noext", ".hidden", "sub.d/x.cgt", "sub.d/noext", "empty.cgt", "dots."] * 3 + ["bad.cgt", "calcbad.cgt", "nope.cgt", "sub.d"]
+            pool = ["a.cgt", "b.cgt", "c.noeol", "my.ledger.cgt", "noext", ".hidden", "sub.d/x.cgt", "sub.d/noext", "empty.cgt", "dots.", "dup1.cgt", "dup2.cgt"] * 5 + ["bad.cgt", "calcbad.cgt", "nope.cgt", "sub.d"]
             sc["files"] = [rng.choice(pool) for _ in range(k)]
             sc["format"] = rng.choice(["plain", "json", "pdf", "pdf"])
-            sc["year"] = rng.choice([None, None, None, 2024, 2023, 2030, 1800])
+            sc["year"] = rng.choice([None] * 6 + [2024, 2024, 2023, 2030, 1800])
             sc["output"] = rng.choice(out_choices)
-            sc["fx"] = rng.choice([None, None, None, "fx", "nofolder"])
+            sc["fx"] = rng.choice([None] * 6 + ["fx", "fx", "nofolder"])
             if sc["format"] == "pdf" and sc["output"] is None and rng.random() < 0.5:
                 sc["pre"].append("default_pdf")
         elif kind == "parse":
@@ -114,6 +122,10 @@ def cli_layer(ctx, root):
         for fl, yr, fx in ((["nope.cgt"], None, None), (["a.cgt", "bad.cgt"], None, None), (["calcbad.cgt"], None, None), (["a.cgt"], 1800, None), (["a.cgt"], None, "nofolder"), (["sub.d"], None, None)):
             for fm in ("plain", "json", "pdf"):
                 fixed.append({"kind": "report", "files": fl, "format": fm, "year": yr, "output": out, "fx": fx})
+    for fm in ("plain", "json"):
+        fixed.append({"kind": "report", "files": ["dup1.cgt", "dup2.cgt"], "format": fm, "year": None, "output": None, "fx": None})
+        fixed.append({"kind": "report", "files": ["dup2.cgt", "a.cgt", "dup1.cgt"], "format": fm, "year": 2024, "output": "out.txt", "fx": None})
+    fixed.append({"kind": "parse", "files": ["dup1.cgt", "dup2.cgt"], "schema": False})
     for i, sc in enumerate(fixed):
         sc.update({"id": "cx%d" % i, "pre": [], "nowrite": []}); scen.append(sc)
     # oracles: what the computations give on these inputs (library, through the harness)
